@@ -796,10 +796,17 @@ instantiate_path(struct attr_data *attr)
 void
 attr_dict_free(struct attr_dict *dict)
 {
-	if (dict->shared->arch_ops && dict->shared->arch_ops->attr_cleanup)
-		dict->shared->arch_ops->attr_cleanup(dict);
-	if (dict->shared->ops && dict->shared->ops->attr_cleanup)
-		dict->shared->ops->attr_cleanup(dict);
+	/* Format and arch-specific hooks are installed on global attributes,
+	 * which a cloned dictionary merely borrows from its fallback; they
+	 * must stay in place until the base dictionary itself goes away.
+	 */
+	if (!dict->fallback) {
+		if (dict->shared->arch_ops &&
+		    dict->shared->arch_ops->attr_cleanup)
+			dict->shared->arch_ops->attr_cleanup(dict);
+		if (dict->shared->ops && dict->shared->ops->attr_cleanup)
+			dict->shared->ops->attr_cleanup(dict);
+	}
 
 	dealloc_attr(dgattr(dict, GKI_dir_root));
 
